@@ -195,3 +195,27 @@ contract(TB, 'TypeBlocks._extract_array',
                          'same_array(result, at(self._blocks, at(self._index, cond(column_key < 0, column_key + len(self._index), column_key))[0])), '
                          'result.ndim == 1 and result.src == at(self._blocks, at(self._index, cond(column_key < 0, column_key + len(self._index), column_key))[0]).src and '
                          'result.off == at(self._blocks, at(self._index, cond(column_key < 0, column_key + len(self._index), column_key))[0]).off + at(self._index, cond(column_key < 0, column_key + len(self._index), column_key))[1])']})
+
+# C14: leading / trailing fills walk the blocks and yield, for every block, either the block itself or a filled copy of it.  Contract (block discipline): exactly one
+# array per block, in block order (in reverse order for the trailing fill along axis 1, as the caller expects), each of the shape of its block; a copy that is
+# written to is a new writeable buffer until it is frozen.  Which cells are filled is decided by the stand-in (exhaustive over small patterns).
+_SAME_SHAPE = 'result.ndim == at(blocks, {k}).ndim and result.rows == at(blocks, {k}).rows and result.cols == at(blocks, {k}).cols'
+_ASTYPE = dict(assumed=True, params={}, order=['dtype'], result='arr',
+               ensures=['result.ndim == recv_.ndim', 'result.rows == recv_.rows', 'result.cols == recv_.cols', 'result.writeable', 'result.fresh'])
+_KEEP = 'assigned.ndim == b.ndim and assigned.rows == b.rows and assigned.cols == b.cols'
+for _name, _k in (('TypeBlocks._fillna_sided_axis_0', 'gy'), ('TypeBlocks._fillna_sided_axis_1', 'cond(sided_leading, gy, len(blocks) - 1 - gy)')):
+    contract(TB, _name,
+        props=['C14', 'C03'],
+        params=dict(blocks='list[arr]', sided_leading='bool'), order=['blocks', 'value', 'sided_leading'],
+        lenient=True, lenient_protect=['gy', 'b'],
+        is_generator=True, yield_sort='arr',
+        requires=['forall_in(0, len(blocks), lambda k: at(blocks, k).ndim == 1 or at(blocks, k).ndim == 2)'],
+        raises={'RuntimeError': 'maybe', 'Exception': 'maybe'},
+        calls={'ndarray.astype': _ASTYPE},
+        ghost_init=['gy = 0'],
+        n_loops=2,
+        loops={0: dict(index='t', locals=dict(gy='int'), ghost_mods=['gy'], invariant=['gy == t']),
+               1: dict(index='u', locals=dict(assigned='arr'), invariant=[_KEEP])},
+        at_yield=['gy < len(blocks)', _SAME_SHAPE.format(k=_k)],
+        yield_update=['gy = gy + 1'],
+        at_exit=['gy == len(blocks)'])
